@@ -338,6 +338,61 @@ pub fn find(args: &[String]) -> i32 {
       }
     }
   }
+  // (e) long definite strings, arrays and maps whose sizes sit at block boundaries (powers of two from
+  // 2^8 to 2^16, one below and one above), with a multi-byte character straddling each boundary
+  let head_for = |mt: u8, n: usize| -> Vec<u8> {
+    if n < 24 {
+      vec![(mt << 5) | n as u8]
+    } else if n < 256 {
+      vec![(mt << 5) | 24, n as u8]
+    } else if n < 65536 {
+      vec![(mt << 5) | 25, (n >> 8) as u8, n as u8]
+    } else {
+      vec![(mt << 5) | 26, (n >> 24) as u8, (n >> 16) as u8, (n >> 8) as u8, n as u8]
+    }
+  };
+  let chars: [&[u8]; 5] = [b"\xc3\xa9", b"\xe0\xa4\x85", b"\xe2\x82\xac", b"\xf0\x9f\x98\x80", b"\xc3"];
+  for sh in 8..=16u32 {
+    let blk = 1usize << sh;
+    for c in chars.iter() {
+      for o in 0..=c.len() {
+        // text: 'a' * (blk - o) ++ c ++ "bb"   (the last entry of `chars` is a truncated sequence: ill-formed)
+        let mut body = vec![b'a'; blk - o];
+        body.extend_from_slice(c);
+        body.extend_from_slice(b"bb");
+        for wrap in 0..2 {
+          let mut b = if wrap == 1 { vec![0x81] } else { vec![] };
+          b.extend(head_for(3, body.len()));
+          b.extend_from_slice(&body);
+          tried += 1;
+          if let Some(why) = check(&b, true) {
+            return report(tried, &b, &why);
+          }
+        }
+      }
+    }
+    for n in [blk - 1, blk, blk + 1] {
+      // byte string of n bytes, array of n small integers, map of n pairs, each also one byte short
+      let mut bs = head_for(2, n);
+      bs.extend((0..n).map(|i| i as u8));
+      let mut arr = head_for(4, n);
+      arr.extend((0..n).map(|i| (i % 24) as u8));
+      let mut map = head_for(5, n);
+      for i in 0..n {
+        map.extend(head_for(0, i));
+        map.push(0x60);
+      }
+      for b in [bs, arr, map] {
+        for cut in 0..2 {
+          let b = &b[..b.len() - cut];
+          tried += 1;
+          if let Some(why) = check(b, true) {
+            return report(tried, b, &why);
+          }
+        }
+      }
+    }
+  }
   println!("{{\"found\":false,\"tried\":{}}}", tried);
   0
 }
